@@ -198,6 +198,7 @@ func New(t *testing.T, c Consts) *Adapter {
 	a.baseProp = next - 1
 	a.baseTok = int(a.countPrefix(ctx, a.ethKey, types.BridgeDenomKey))
 	a.baseIn = a.I.BaseIn(ibcChan)
+	mustf(w.App.EvmKeeper.GetState(ctx, a.I.Recorder, common.Hash{}) == (common.Hash{}), "world: the recorder contract has been called already")
 	return a
 }
 
@@ -481,19 +482,39 @@ func (a *Adapter) runGov(ctx sdk.Context, fp string, designated bool) (string, t
 	return "ok", end
 }
 
-func (a *Adapter) runIbc(ctx sdk.Context, fp string, designated bool) string {
+// ibcFails classifies a packet from its two follow-ups alone (mirrors IbcFails of the specification; used only to
+// decide whether the differential oracle runs - the verdict comes from the formulas).
+func ibcFails(fp, mk string) bool {
+	return (fp != "none" && fp != "fx") || mk == "rev0" || mk == "rev1" || mk == "invalid"
+}
+
+// runIbc receives one packet: fp is its coin / receiver class (what becomes of the first follow-up, the move of the
+// received coin into the EVM), mk its memo (what becomes of the second follow-up).  Every combination is a packet.
+func (a *Adapter) runIbc(ctx sdk.Context, fp, mk string, designated bool) string {
 	u := a.I.User("u1")
 	receiver, class, memo := u.Address().Hex(), "t1", ""
 	pairOff := false
-	switch fp {
+	switch mk {
 	case "none":
+	case "text": // free text: not an ibc call, ignored by design
+		memo = "invoice 0000"
+	case "json": // JSON of another protocol: not an ibc call, ignored by design
+		memo = `{"wasm":{"contract":"x","msg":{}}}`
+	case "call": // the called contract records its caller
 		memo = a.I.CallMemo(a.I.Recorder.Hex())
-	case "memo0": // FX paid out, then the called contract reverts at once
-		class, memo = "fx", a.I.CallMemo(a.addr["rev0"].Hex())
-	case "memo1": // converted to ERC-20, then the called contract writes and reverts
+	case "rev0": // the called contract reverts at once
+		memo = a.I.CallMemo(a.addr["rev0"].Hex())
+	case "rev1": // the called contract writes and reverts
 		memo = a.I.CallMemo(a.addr["rev1"].Hex())
-	case "memoInvalid": // converted, then the call packet fails its validation
+	case "invalid": // the call packet fails its validation
 		memo = a.I.CallMemo("0xzz")
+	default:
+		panic("ibc memo kind " + mk)
+	}
+	switch fp {
+	case "none": // voucher with a token pair: minted, converted to ERC-20
+	case "fx": // the native coin comes home: paid out, nothing to convert
+		class = "fx"
 	case "alias": // voucher minted, then the conversion of the bridged alias fails
 		class = "tb"
 	case "unknown": // voucher minted, no such token
@@ -522,7 +543,7 @@ func (a *Adapter) runIbc(ctx sdk.Context, fp string, designated bool) string {
 	return "ok"
 }
 
-func (a *Adapter) run(ctx sdk.Context, b, fp, rf string, designated bool) (string, time.Time) {
+func (a *Adapter) run(ctx sdk.Context, b, fp, rf, mk string, designated bool) (string, time.Time) {
 	switch b {
 	case "att":
 		return a.runAtt(ctx, fp, designated), ctx.BlockTime()
@@ -531,7 +552,7 @@ func (a *Adapter) run(ctx sdk.Context, b, fp, rf string, designated bool) (strin
 	case "gov":
 		return a.runGov(ctx, fp, designated)
 	case "ibc":
-		return a.runIbc(ctx, fp, designated), ctx.BlockTime()
+		return a.runIbc(ctx, fp, mk, designated), ctx.BlockTime()
 	}
 	panic("boundary " + b)
 }
@@ -634,10 +655,14 @@ func (a *Adapter) Apply(ctx sdk.Context, op graph.Op) (sdk.Context, string) {
 	if op.Name() != "Step" {
 		panic("unknown op " + op.Name())
 	}
-	b, fp, rf := op.Str("b"), op.Str("fp"), op.Str("rf")
+	b, fp, rf, mk := op.Str("b"), op.Str("fp"), op.Str("rf"), op.Str("mk")
+	failing := fp != "none"
+	if b == "ibc" {
+		failing = ibcFails(fp, mk)
+	}
 	a.LastErr = ""
 	brA, writeA := ctx.CacheContext()
-	resA, tA := a.run(brA, b, fp, rf, false)
+	resA, tA := a.run(brA, b, fp, rf, mk, false)
 	if resA != "ok" {
 		if os.Getenv("VERIF_DEBUG") != "" {
 			fmt.Printf("DEBUG %v -> %s\n", op, a.LastErr)
@@ -646,11 +671,11 @@ func (a *Adapter) Apply(ctx sdk.Context, op graph.Op) (sdk.Context, string) {
 	}
 	errA := a.LastErr
 	residue := int64(0)
-	if fp != "none" {
+	if failing {
 		brB, _ := ctx.CacheContext()
-		resB, _ := a.run(brB, b, fp, rf, true)
+		resB, _ := a.run(brB, b, fp, rf, mk, true)
 		if resB != "ok" {
-			panic(fmt.Sprintf("designated outcome of %s/%s could not be produced: %s", b, fp, a.LastErr))
+			panic(fmt.Sprintf("designated outcome of %s/%s/%s could not be produced: %s", b, fp, mk, a.LastErr))
 		}
 		skip, vonly := a.masked(ctx, b, fp)
 		d := diff(a.dump(brA), a.dump(brB), skip, vonly)
@@ -687,7 +712,8 @@ func units(x sdkmath.Int) int64 {
 
 // Project reads the crosschain store (0x24 last observed nonce, 0x54 parked claims, 0x48 outgoing bridge
 // calls, 0x60 bridge denoms), bank + ERC-20 balances of the call's parties, contract storage, the gov
-// proposals, the marker keys, the IBC acknowledgements and the residue of the last step.
+// proposals, the marker keys, the IBC acknowledgements, slot 0 of the recorder contract (target of the
+// packets' successful memo calls) and the residue of the last step.
 func (a *Adapter) Project(ctx sdk.Context) any {
 	w, c := a.W, a.C
 	cdc := w.App.AppCodec()
@@ -796,7 +822,8 @@ func (a *Adapter) Project(ctx sdk.Context) any {
 		"nref": nref, "refs": refs, "held": held, "wslot": wslot, "rslot": rslot,
 		"ntok": int64(int(a.countPrefix(ctx, a.ethKey, types.BridgeDenomKey)) - a.baseTok),
 		"np":   int64(next-1) - int64(a.baseProp), "pstat": pstat, "gmark": int64(a.countPrefix(ctx, a.feeKey, []byte("verif/c18/"))),
-		"nin": int64(a.I.NextIn(ctx, ibcChan)-1) - int64(a.baseIn), "ack": acks, "vcred": vcred, "residue": residue,
+		"nin": int64(a.I.NextIn(ctx, ibcChan)-1) - int64(a.baseIn), "ack": acks, "vcred": vcred,
+		"icall": w.App.EvmKeeper.GetState(ctx, a.I.Recorder, common.Hash{}) != (common.Hash{}), "residue": residue,
 	}
 }
 
